@@ -1453,6 +1453,21 @@ fn execute(c: &'static CaseDesc, inner: Option<&'static CaseDesc>, vals: &[f64],
             ctx.checked();
             ctx.state(&(c.name, kname, std::mem::discriminant(doc), std::mem::discriminant(&read.fault), std::mem::discriminant(&write.fault), baseline.is_ok()));
             ev!(ctx, "document {document:?} -> {}", match &baseline { Ok(_) => "ok".to_string(), Err(e) => format!("err({e})") });
+            // `deserialize_in_place` into a value that already exists (another color, another alpha) is the same
+            // function as far as a caller can tell: serde's default forwards to `deserialize`, an override must agree
+            let place: Vec<f64> = (0..vals.len()).map(|j| vals[(j + 1) % vals.len()]).collect();
+            let in_place = (c.ops.json_in_place)(&document, &place, said);
+            ctx.checked();
+            // (how a refusal is worded is not compared)
+            let agree = match (&baseline, &in_place) {
+                (Ok(a), Ok(b)) => a == b,
+                (Err(_), Err(_)) => true,
+                _ => false,
+            };
+            if !agree {
+                ctx.fail("deserialize_in_place-vs-deserialize", &key, format!("{}: deserialize_in_place over an existing value gives {in_place:?}, deserialize gives {baseline:?} for {document:?}", c.name));
+                return;
+            }
             if norm(&baseline) != norm(&via_str) {
                 ctx.fail("from_str-vs-from_slice", &key, format!("{}: from_str gives {via_str:?}, from_slice gives {baseline:?} for {document:?}", c.name));
                 return;
